@@ -723,8 +723,17 @@ class BinaryOp(Expr):
                 raise OverflowError
             return op_type.coerce(value)
 
-        left = convert(self.left.eval())
-        right = convert(self.right.eval())
+        def operand(node):
+            value = node.eval()
+            if node.type == Type.SINGLE and Type.SINGLE.can_hold(value):
+                # a SINGLE operand is a 32-bit value at run time (a
+                # literal is stored as one), whatever wider type the
+                # operation is performed in
+                value = Type.SINGLE.coerce(value)
+            return value
+
+        left = convert(operand(self.left))
+        right = convert(operand(self.right))
 
         def qbool(x):
             return -1 if x else 0
